@@ -21,7 +21,7 @@ Digit(n) == CASE n = 0 -> "0" [] n = 1 -> "1" [] n = 2 -> "2" [] n = 3 -> "3" []
 GridName(nk, thr, inst) == "s" \o Digit(nk) \o Digit(thr) \o inst
 
 BaseNames == {"x1", "x2", "x3", "xf", "xs", "xl", "xt0", "xt3", "a1", "a2", "rm", "cn", "pl", "cl", "cu",
-              "b1", "b2", "o1", "o2", "o3", "oh", "oh2", "k64a", "k64b", "missing", "badidx", "sub0"}
+              "b1", "b2", "o1", "o2", "o3", "oh", "oh2", "k64a", "k64b", "ow1", "ow2", "missing", "badidx", "sub0"}
 GridNameSet == {"s10a", "s10b", "s10c", "s11a", "s11b", "s11c", "s12a", "s12b", "s12c", "s13a", "s13b", "s13c", "s14a", "s14b", "s14c", "s20a", "s20b", "s20c", "s21a", "s21b", "s21c", "s22a", "s22b", "s22c", "s23a", "s23b", "s23c", "s24a", "s24b", "s24c", "s30a", "s30b", "s30c", "s31a", "s31b", "s31c", "s32a", "s32b", "s32c", "s33a", "s33b", "s33c", "s34a", "s34b", "s34c"}
 SlotNames == BaseNames \cup GridNameSet
 
@@ -49,6 +49,8 @@ SlotDef(n) ==
         [] n = "o3"  -> Sl("OTH", "script", U(3), 3, 2)
         [] n = "oh"  -> Sl("OTH", "script", Amt(0, 1, 0, 0, 0), 1, 1)
         [] n = "oh2" -> Sl("OTH", "script", Amt(0, 1, 0, 0, 0), 1, 1)
+        [] n = "ow1" -> Sl("OTH", "script", AmtW(0, 1, 0), 1, 1)
+        [] n = "ow2" -> Sl("OTH", "script", AmtW(0, 1, 0), 1, 1)
         [] n = "k64a" -> Sl("OTH", "script", U(1), 64, 64)
         [] n = "k64b" -> Sl("OTH", "script", U(1), 64, 33)
         [] n = "s10a" -> Sl("OTH", "script", U(1), 1, 0)
